@@ -172,7 +172,8 @@ theorem loop_reports_only_confirmed (cs : Consts) (c : Case) (sel : Selection)
         m.attempt = 1 + j ∧ m.message = msgConst ∧ m.endBlock ≤ protoTimeout cs c (1 + j) ∧
         m.sig = sig ∧ sig ≠ 0 ∧ m.endBlock ≤ eb) ∧
       (sel (1 + j) a.ready ≠ [] → ∃ m, Scripted c (1 + j) a m ∧ m.sender ∈ sel (1 + j) a.ready ∧
-        m.attempt = 1 + j ∧ m.sig = sig ∧ m.endBlock = eb) := by
+        m.attempt = 1 + j ∧ m.sig = sig ∧ m.endBlock = eb ∧
+        eb ≤ protoTimeout cs c (1 + j)) := by
   obtain ⟨j, a, msgs, e1, dec, e3, _, _, e6⟩ := runFrom_ok cs c sel c.attempts 1 ls sig eb tb act inact h
   refine ⟨j, a, e1, e3, e6, ?_, ?_⟩
   all_goals
@@ -197,8 +198,8 @@ theorem loop_reports_only_confirmed (cs : Consts) (c : Case) (sel : Selection)
     obtain ⟨i0, hi0⟩ := List.exists_mem_of_ne_nil _ hne
     obtain ⟨m0, hm0, _⟩ := hcov i0 hi0
     obtain ⟨m, hm, e⟩ := hatt (by intro z; rw [z] at hm0; cases hm0)
-    obtain ⟨p1, _, _, p4, _, p6, _⟩ := hprops m hm
-    exact ⟨m, hscr m p1, hincl m hm, p4, p6, e⟩
+    obtain ⟨p1, _, _, p4, p5, p6, _⟩ := hprops m hm
+    exact ⟨m, hscr m p1, hincl m hm, p4, p6, e, by rw [← e]; exact p5⟩
 
 /-! ## Attempts are independent -/
 
@@ -294,5 +295,71 @@ theorem loop_attempts_independent (cs : Consts) (c : Case) (sel : Selection) (as
         have := scenario_prune cs c sel k0 a []
         simp only [List.append_nil] at this
         rw [← this]
+
+/-! ## The monitor accepts every model run -/
+
+theorem conf_of_scripted (cs : Consts) (c : Case) (k : Nat) (a : Attempt) (sig i : Nat)
+    (m : C35.Msg) (hs : Scripted c k a m) (h1 : m.sender = i) (h2 : m.attempt = k)
+    (h3 : m.sig = sig) (h4 : m.endBlock ≤ protoTimeout cs c k) :
+    m.endBlock ∈ confirmations cs c k a sig i := by
+  unfold confirmations
+  simp only [List.mem_append, List.mem_filterMap]
+  rcases hs with hs | ⟨e, s, ho, rfl⟩
+  · right
+    simp only [List.mem_map] at hs
+    obtain ⟨o, ho, rfl⟩ := hs
+    simp only [otherMsg] at h1 h2 h3 h4 ⊢
+    exact ⟨o, ho, by simp [h1, h2, h3, h4]⟩
+  · left
+    simp only at h1 h3 h4
+    simp [ho, h1, h3, h4]
+
+/-- **holdsLoop_model**: for every script and every selection function that selects a non-empty
+    set of wallet members, the loop monitor accepts the model's run (so: correspondence of the
+    run under the observed selection + this ⇒ the monitor predicate holds of the implementation). -/
+theorem holdsLoop_model (cs : Consts) (c : Case) (sel : Selection)
+    (hsel : ∀ k r, sel k r ≠ [] ∧ ∀ m ∈ sel k r, 1 ≤ m ∧ m ≤ c.n) :
+    holds cs c (run cs c sel).1 (run cs c sel).2 = true := by
+  unfold holds
+  simp only [Bool.and_eq_true, List.all_eq_true, beq_iff_eq, decide_eq_true_eq]
+  refine ⟨?_, ?_⟩
+  · intro l hl
+    obtain ⟨j, a, _, _, e3, e4, e5⟩ := loop_listen_gets_protocol_timeout cs c sel c.attempts 1 l hl
+    refine ⟨by rw [e5, e3], ?_⟩
+    intro m hm
+    rw [e4] at hm
+    exact (hsel _ _).2 m hm
+  · cases hr : (run cs c sel).2 with
+    | err => rfl
+    | ok sig eb tb act inact =>
+      simp only
+      have hrun : run cs c sel = ((run cs c sel).1, .ok sig eb tb act inact) := Prod.ext rfl hr
+      obtain ⟨j, a, msgs, e1, dec, e3, e4, e5, e6⟩ :=
+        runFrom_ok cs c sel c.attempts 1 _ sig eb tb act inact hrun
+      obtain ⟨j', a', e1', _, e6', hall, hany⟩ :=
+        loop_reports_only_confirmed cs c sel _ sig eb tb act inact hrun
+      have hj : j' = j := by
+        rw [e6] at e6'
+        simp only [Option.some.injEq, Listen.mk.injEq] at e6'
+        omega
+      subst hj
+      have ha : a' = a := by rw [e1] at e1'; cases e1'; rfl
+      subst ha
+      rw [e6]
+      simp only [Nat.add_sub_cancel_left, e1]
+      have hne := (hsel (1 + j') a'.ready).1
+      obtain ⟨i0, hi0⟩ := List.exists_mem_of_ne_nil _ hne
+      simp only [Bool.and_eq_true, bne_iff_ne, ne_eq, beq_iff_eq, List.all_eq_true,
+        List.any_eq_true, decide_eq_true_eq, List.contains_iff_mem]
+      refine ⟨⟨⟨⟨⟨?_, e3⟩, ?_⟩, ?_⟩, by rw [e4]⟩, by rw [e5]⟩
+      · obtain ⟨m, _, _, _, _, _, _, hz, _⟩ := hall i0 hi0
+        exact hz
+      · intro i hi
+        obtain ⟨m, hs, h1, h2, _, h4, h5, _, h7⟩ := hall i hi
+        exact ⟨m.endBlock, conf_of_scripted cs c (1 + j') a' sig i m hs h1 h2 h5 h4, h7⟩
+      · obtain ⟨m, hs, hin, h2, h5, h6, h7⟩ := hany hne
+        exact ⟨m.sender, hin, by
+          rw [← h6]
+          exact conf_of_scripted cs c (1 + j') a' sig m.sender m hs rfl h2 h5 (by rw [h6]; exact h7)⟩
 
 end KeepVerif.C35Loop
